@@ -49,6 +49,8 @@ type Node struct {
 	// recblob: the records the blob was built from (nil when the blob is arbitrary bytes)
 	Recs    []*Node
 	RecMode string
+	RecVer  byte // transaction record layout the setter was asked to write
+	RecMin  int  // LogSinkZipPack.SetRecords: the compression threshold passed
 }
 
 func nInt(v int64) *Node { return &Node{K: kInt, I: v} }
